@@ -678,6 +678,36 @@ func runC19(r *Run, p *Prog) {
 		r.Floor("A5", 3)
 	})
 
+	// ---- A7: once the new listener exists, Bind closes no other listener: closing a unix listener unlinks its path by
+	// name, and after a re-bind of the same path that name belongs to the listener just created - the socket file of the
+	// service that was bound successfully disappears
+	r.Guard("A7", func() {
+		n := 0
+		for _, b := range vb.Blocks {
+			for _, in := range b.Instrs {
+				if !isListenCall(in) {
+					continue
+				}
+				n++
+				bad, w := reachInstr(vb, in, func(x ssa.Instruction) bool {
+					c, ok := x.(*ssa.Call)
+					if !ok || !c.Call.IsInvoke() || c.Call.Method.Name() != "Close" || !isNamed(c.Call.Value.Type(), "net", "Listener") {
+						return false
+					}
+					// the listener kept in the Service (the previous one), not the one this call created
+					return strings.HasSuffix(strip(T.T(c.Call.Value)), "."+svcF.Listener)
+				}, func(x ssa.Instruction) bool {
+					// (after the new listener was stored the member is the new one)
+					st, ok := x.(*ssa.Store)
+					return ok && isStoreToServiceField(x, svcF.Listener) && st != nil
+				}, nil)
+				r.Ob("A7", shortName(vb), "the listener held before is not closed after the new one was created", in.Pos(), !bad,
+					"the previous listener is closed after the listen call: for a unix path that is bound again, unlink-on-close removes the socket file the new listener has just created - Bind succeeds but no client can reach the service", witnessPos(p, w)...)
+			}
+		}
+		r.Floor("A7", 1)
+	})
+
 	// ---- A6: re-bindable
 	r.Guard("A6", func() {
 		_ = fieldIndex
